@@ -62,6 +62,8 @@ func checkC07(c *Ctx) {
 		c.c10ExpireAt()
 		c.c10Jitter()
 	}, func(o *coreObl) (string, bool) { return "R07.5", o.Rule == "R10.1" || o.Rule == "R10.3" || o.Rule == "R10.2" })
+	// the expiry an entry reports (ExpireAt / ExpiredAt) is its E: tsTime is the exact inverse of ts (C10 R10.5)
+	c.borrow("C10", func() { c.c10TsInverse() }, func(o *coreObl) (string, bool) { return "R07.2", o.Rule == "R10.5" })
 	// "expired but still retrievable as stale": an expired entry stays until it has been expired for DeleteExpiredAfter (C11 R11.1)
 	c.borrow("C11", func() { c.c11Boundary() }, func(o *coreObl) (string, bool) { return "R07.4", o.Rule == "R11.1" })
 	// the TTL option is installed by WithTTL (innermost wins, also DefaultTTL) and read back by TTL(ctx)
